@@ -26,6 +26,12 @@ Definition cres (r : result) : Prop := r = res ARES_ECANCELLED.
 
 Section CancelInv.
 Variable Old : list tok.
+(* the trace when the top-level ares_cancel began *)
+Variable T0 : list event.
+
+(* a callback for a request made before the call carries ARES_ECANCELLED *)
+Definition okev (e : event) : Prop := match e with EvCb t st => In t Old -> st = ARES_ECANCELLED | _ => True end.
+Definition oktr (add : list event) : Prop := forall e, In e add -> okev e.
 
 Definition newt (l : list tok) : Prop := forall t, In t l -> ~ In t Old.
 Definition hnew (s : state) (o : obj) : Prop := forall h, cell_of s o = Some (CHost h) -> newt (ctoks (h_cb h)).
@@ -35,17 +41,19 @@ Definition okr (s : state) (k : cbk) (r : result) : Prop := newk s k \/ cres r.
 Record J (s : state) : Prop := {
   j_head : forall qo q, In qo (heads s) -> cell_of s qo = Some (CQuery q) -> newk s (q_cb q) /\ q_cancelled q = false;
   j_tail : forall qo q, In qo (tails s) -> cell_of s qo = Some (CQuery q) -> q_cancelled q = true;
-  j_scr : newt (futr s)
+  j_scr : newt (futr s);
+  j_tr : exists nw, st_trace s = nw ++ T0 /\ oktr nw
 }.
 
 (* what ares_cancel needs at entry *)
 Record Jpre (s : state) : Prop := {
   jp_tail : forall qo q, In qo (tails s) -> cell_of s qo = Some (CQuery q) -> q_cancelled q = true;
-  jp_scr : newt (futr s)
+  jp_scr : newt (futr s);
+  jp_tr : exists nw, st_trace s = nw ++ T0 /\ oktr nw
 }.
 
 Lemma J_pre s : J s -> Jpre s.
-Proof. intros [H1 H2 H3]. constructor; auto. Qed.
+Proof. intros [H1 H2 H3 H4]. constructor; auto. Qed.
 
 Lemma newt_nil : newt [].
 Proof. intros t []. Qed.
@@ -69,7 +77,8 @@ Record jrel (s s' : state) : Prop := {
                exists q, cell_of s o = Some (CQuery q) /\ q_cb q' = q_cb q /\ q_cancelled q' = q_cancelled q;
   jr_host : forall o h', cell_of s' o = Some (CHost h') ->
                (exists h, cell_of s o = Some (CHost h) /\ h_cb h' = h_cb h) \/ newt (ctoks (h_cb h'));
-  jr_scr : incl (futr s') (futr s)
+  jr_scr : incl (futr s') (futr s);
+  jr_tr : exists add, st_trace s' = add ++ st_trace s /\ oktr add
 }.
 
 Lemma hnew_rel s s' o : jrel s s' -> hnew s o -> hnew s' o.
@@ -85,12 +94,15 @@ Proof. intros R [H|H]; [left; eapply newk_rel; eauto|right; exact H]. Qed.
 
 Lemma J_rel s s' : J s -> jrel s s' -> J s'.
 Proof.
-  intros [H1 H2 H3] R. constructor.
+  intros [H1 H2 H3 H4] R. constructor.
   - intros qo q' Hh Hc. destruct (jr_query _ _ R _ _ Hc) as [q [Hc0 [E1 E2]]].
     destruct (H1 qo q (jr_head _ _ R _ Hh) Hc0) as [A B]. rewrite E1, E2. split; auto. eapply newk_rel; eauto.
   - intros qo q' Hh Hc. destruct (jr_query _ _ R _ _ Hc) as [q [Hc0 [E1 E2]]].
     rewrite E2. exact (H2 qo q (jr_tail _ _ R _ Hh) Hc0).
   - eapply newt_incl; [exact (jr_scr _ _ R)|exact H3].
+  - destruct H4 as [nw [E Ho]]. destruct (jr_tr _ _ R) as [add [E' Ho']].
+    exists (add ++ nw). rewrite E', E, app_assoc. split; [reflexivity|].
+    intros e He. apply in_app_or in He. destruct He; auto.
 Qed.
 
 Lemma jrel_refl s : jrel s s.
@@ -99,6 +111,7 @@ Proof.
   - intros o q Hc. exists q. auto.
   - intros o h Hc. left. exists h. auto.
   - apply incl_refl.
+  - exists []. split; [reflexivity|]. intros e [].
 Qed.
 
 Lemma jrel_trans s1 s2 s3 : jrel s1 s2 -> jrel s2 s3 -> jrel s1 s3.
@@ -111,46 +124,61 @@ Proof.
   - intros o h3 Hc. destruct (jr_host _ _ B _ _ Hc) as [[h2 [Hc2 E]]|Hn]; [|right; exact Hn].
     destruct (jr_host _ _ A _ _ Hc2) as [[h1 [Hc1 E']]|Hn]; [left; exists h1; split; auto; congruence|right; rewrite E; exact Hn].
   - eapply incl_tran; [exact (jr_scr _ _ B)|exact (jr_scr _ _ A)].
+  - destruct (jr_tr _ _ A) as [a1 [E1 O1]]. destruct (jr_tr _ _ B) as [a2 [E2 O2]].
+    exists (a2 ++ a1). rewrite E2, E1, app_assoc. split; [reflexivity|].
+    intros e He. apply in_app_or in He. destruct He; auto.
 Qed.
 
 (* same lists and scripts, cells related one by one *)
 Lemma jrel_cells s s' :
-  st_lists s' = st_lists s -> st_scripts s' = st_scripts s ->
+  st_lists s' = st_lists s -> st_scripts s' = st_scripts s -> st_trace s' = st_trace s ->
   (forall o q', cell_of s' o = Some (CQuery q') ->
      exists q, cell_of s o = Some (CQuery q) /\ q_cb q' = q_cb q /\ q_cancelled q' = q_cancelled q) ->
   (forall o h', cell_of s' o = Some (CHost h') ->
      (exists h, cell_of s o = Some (CHost h) /\ h_cb h' = h_cb h) \/ newt (ctoks (h_cb h'))) ->
   jrel s s'.
 Proof.
-  intros El Es Hq Hh. constructor; auto.
+  intros El Es Et Hq Hh. constructor; auto.
   - unfold heads. rewrite El. auto.
   - unfold tails. rewrite El. auto.
   - unfold futr. rewrite Es. apply incl_refl.
+  - exists []. split; [exact Et|]. intros e [].
 Qed.
 
 Lemma jrel_same s s' :
-  st_lists s' = st_lists s -> st_scripts s' = st_scripts s -> (forall o, cell_of s' o = cell_of s o) -> jrel s s'.
+  st_lists s' = st_lists s -> st_scripts s' = st_scripts s -> st_trace s' = st_trace s ->
+  (forall o, cell_of s' o = cell_of s o) -> jrel s s'.
 Proof.
-  intros El Es Hc. apply jrel_cells; auto.
+  intros El Es Et Hc. apply jrel_cells; auto.
   - intros o q' H. rewrite Hc in H. exists q'. auto.
   - intros o h' H. rewrite Hc in H. left. exists h'. auto.
 Qed.
 
-Lemma jrel_core s s' : core_eq s s' -> st_scripts s' = st_scripts s -> jrel s s'.
+Lemma jrel_core s s' : core_eq s s' -> st_scripts s' = st_scripts s -> st_trace s' = st_trace s -> jrel s s'.
 Proof.
-  intros E Es. apply jrel_same; auto.
+  intros E Es Et. apply jrel_same; auto.
   - destruct E as [_ [_ [_ [E _]]]]. exact E.
   - intros o. apply (ce_cell _ _ _ E).
 Qed.
 
 Lemma jrel_sim s s' :
-  st_lists s' = st_lists s -> st_scripts s' = st_scripts s -> (forall o, cell_sim (cell_of s o) (cell_of s' o)) -> jrel s s'.
+  st_lists s' = st_lists s -> st_scripts s' = st_scripts s -> st_trace s' = st_trace s ->
+  (forall o, cell_sim (cell_of s o) (cell_of s' o)) -> jrel s s'.
 Proof.
-  intros El Es Hs. apply jrel_cells; auto.
+  intros El Es Et Hs. apply jrel_cells; auto.
   - intros o q' Hc. specialize (Hs o). rewrite Hc in Hs. unfold cell_sim in Hs.
     destruct (cell_of s o) as [[q|c|h|]|]; try contradiction. exists q. destruct Hs. auto.
   - intros o h' Hc. specialize (Hs o). rewrite Hc in Hs. unfold cell_sim in Hs.
     destruct (cell_of s o) as [[q|c|h|]|]; try contradiction. subst. left. exists h. auto.
+Qed.
+
+Lemma jrel_emit s e : okev e -> jrel s (set_trace (e :: st_trace s) s).
+Proof.
+  intros He. constructor; auto.
+  - intros o q Hc. exists q. auto.
+  - intros o h Hc. left. exists h. auto.
+  - apply incl_refl.
+  - exists [e]. split; [reflexivity|]. intros x [<-|[]]. exact He.
 Qed.
 
 Lemma jrel_alloc s c :
@@ -209,6 +237,7 @@ Proof.
       * intros o q H1. exists q. auto.
       * intros o h H1. left. exists h. auto.
       * intros x Hx. eapply Permutation_in; [symmetry; exact P|]. apply in_or_app. right. exact Hx.
+      * exists []. split; [reflexivity|]. intros e [].
     + intros x Hx. eapply Permutation_in; [symmetry; exact P|]. apply in_or_app. left. exact Hx.
   - split; [apply jrel_refl|]. intros x [].
 Qed.
@@ -216,14 +245,13 @@ Qed.
 (* ares_detach_query *)
 Lemma jrel_detach s s' qo q :
   cell_of s qo = Some (CQuery q) ->
-  st_lists s' = map (remove_nat qo) (st_lists s) -> st_scripts s' = st_scripts s ->
+  st_lists s' = map (remove_nat qo) (st_lists s) -> st_scripts s' = st_scripts s -> st_trace s' = st_trace s ->
   (forall o, cell_of s' o = if Nat.eqb o qo then Some (CQuery (set_q_conn None q)) else option_map (strip qo) (cell_of s o)) ->
   jrel s s'.
 Proof.
-  intros Hq El Es Hc.
+  intros Hq El Es Et Hc.
   assert (Hs : forall o, cell_sim (cell_of s o) (cell_of s' o)).
   { apply (strip_sim s s' qo q (set_q_conn None q)); auto. }
-  pose proof (jrel_sim s (set_lists (st_lists s) s')) as R0.
   constructor.
   - unfold heads. rewrite El. intros x Hx. destruct (st_lists s); simpl in *; auto. apply in_remove_nat in Hx. tauto.
   - unfold tails. rewrite El. intros x Hx. destruct (st_lists s) as [|a r]; simpl in *; auto.
@@ -233,6 +261,7 @@ Proof.
   - intros o h' H. specialize (Hs o). rewrite H in Hs. unfold cell_sim in Hs.
     destruct (cell_of s o) as [[q0|c|h|]|]; try contradiction. subst. left. exists h. auto.
   - unfold futr. rewrite Es. apply incl_refl.
+  - exists []. split; [exact Et|]. intros e [].
 Qed.
 
 (* a new query is linked into the live list *)
@@ -240,7 +269,7 @@ Lemma J_new_query s k qid q0 :
   Inv s -> J s -> newk s k -> q_cb q0 = k -> q_cancelled q0 = false ->
   J (set_byqid ((qid, st_next s) :: st_byqid s) (set_lists (link_lists (st_next s) (st_lists s)) (alloc_st (CQuery q0) s))).
 Proof.
-  intros I [H1 H2 H3] Hk Ecb Ecn.
+  intros I [H1 H2 H3 H4] Hk Ecb Ecn.
   set (s' := set_byqid _ _).
   assert (Hfresh : cell_of s (st_next s) = None) by (eapply fresh_dead; eauto).
   assert (Hcell : forall o, cell_of s' o = if Nat.eqb o (st_next s) then Some (CQuery q0) else cell_of s o).
@@ -266,15 +295,16 @@ Proof.
       destruct (inv_query _ _ I _ Hl) as [q1 Hq1]. congruence.
     + exact (H2 qo q Hin Hc).
   - exact H3.
+  - exact H4.
 Qed.
 
 (* ares_cancel: the live list becomes one more taken list, then its queries are marked *)
 Lemma mark_cancelled_J l : forall s, Inv s -> heads s = [] -> (forall qo, In qo l -> In qo (tails s)) ->
   (forall qo q, In qo (tails s) -> ~ In qo l -> cell_of s qo = Some (CQuery q) -> q_cancelled q = true) ->
-  newt (futr s) ->
+  newt (futr s) -> (exists nw, st_trace s = nw ++ T0 /\ oktr nw) ->
   safe (mark_cancelled l) s (fun _ s' => J s').
 Proof.
-  induction l as [|qo r IHr]; intros s I Hh Hl Hm Hs; simpl.
+  induction l as [|qo r IHr]; intros s I Hh Hl Hm Hs Htr; simpl.
   - apply safe_ret. constructor; auto.
     + rewrite Hh. intros qo q [].
     + intros qo q Ht Hc. apply (Hm qo q); auto.
